@@ -47,5 +47,6 @@ def extra(ctx, res):
         k = ctx.interp.analyse_entry(fi)
         boolish = k == BOOL or (isinstance(k, Const) and isinstance(k.value, bool)) or (isinstance(k, Union) and all(x == BOOL or (isinstance(x, Const) and isinstance(x.value, bool)) for x in k.members))
         res.check(boolish, "K-BOOL", fi.short, "return kind " + repr(k), "bool", f"{m} can return a non-boolean object (a truthy table for an absent item)", loc(fi, fi.node))
-    check_filter_clients(ctx, res, DEGREE + ["cc.isolated_nodes", "cc.is_isolated", "degree.in_degree", "degree.out_degree", "degree.in_degree_sequence", "degree.out_degree_sequence"][:2])
+    with res.guard("check_filter_clientsctx, res, DEGREE  cc.isolated_nodes, cc.is_isolate"):
+        check_filter_clients(ctx, res, DEGREE + ["cc.isolated_nodes", "cc.is_isolated", "degree.in_degree", "degree.out_degree", "degree.in_degree_sequence", "degree.out_degree_sequence"][:2])
     return res
